@@ -15,7 +15,7 @@ CONSTANTS
   Slice = 0
   MaxP = 1
   MaxE = 0
-  Deviations = {"ExceptionAsScore67", "LaterPatternReplacesException", "ExceptionsSplitOnLinesOnly"}
+  Deviations = {"ExceptionAsScore67", "LaterPatternReplacesException"}
   PatTexts <- MCPatTexts
   ExcTexts <- MCExcTextsA
   ExcListTexts <- MCExcListsSmall
